@@ -41,7 +41,8 @@ def tasks(tier):
         rest = single + rest
     chunk = 6 if quick else 1
     for lo in range(0, len(rest), chunk):
-        out.append({"n": 3, "masks": rest[lo : lo + chunk], "extras": not quick})
+        few = all(bin(m).count("1") <= 2 for m in rest[lo : lo + chunk])
+        out.append({"n": 3, "masks": rest[lo : lo + chunk], "extras": not quick, "enum": few, "sub2": quick or all(bin(m).count("1") <= 3 for m in rest[lo : lo + chunk])})
     return out
 
 
@@ -54,7 +55,7 @@ BOUNDS = {
     "transition between different states, a from_.any() edge to one target, a duplicated edge, from_.any() + internal}), all graphs over 3 states "
     "with 1..3 edges (the variants on the single-edge ones); "
     "the states come from State attributes, from States.from_enum over an IntEnum whose first member is 0 (single final member passed bare), or from a States({...}) collection declared below the from_.any() event (quick: from_enum on the 1- and 2-state graphs only); for every graph all assignments of initial/final flags and strict_states (symbolic); every definition is stated twice (the verdict may not depend on history) and an empty subclass with its own strict_states is validated again; a subclass adding a trap state is judged by its own strict_states.",
-    "thorough": "all 512 edge sets over 3 states, with the internal / from_.any() / duplicate variants.",
+    "thorough": "all 512 edge sets over 3 states, with the internal / from_.any() / duplicate variants (from_enum as source on the graphs with <= 2 edges, the trap-state subclass on those with <= 3).",
 }
 OUTSIDE = "4 and 5 states (2^16 and 2^25 edge sets); inheritance as the source of the states (C15); from_enum(use_enum_instance=True); abstract base classes without states"
 OBLIGATIONS = ["subclass-adds-trap-state", "states-from-enum", "states-from-collection", "subclass-revalidated", "accepted", "warned", "rejected", "rejected-strict", "any-edge", "internal-self", "internal-nonself-rejected", "no-events"]
@@ -246,7 +247,7 @@ def run(ctx, params):
             raise Mismatch(f"subclass-not-revalidated:{shape}", f"class {got}; `class Sub(M, strict_states={st2}): pass` was {sub}, expected {exp_sub} ({soft})", desc)
         ctx.cover("subclass-revalidated")
         # a subclass that ADDS a trap state: judged by the subclass's own strict_states, whatever the base's was
-        if soft is None and not fin[ini.index(True)]:
+        if soft is None and not fin[ini.index(True)] and params.get("sub2", True):
             strict3 = ctx.sym_bool("strict.sub2")
             with warnings.catch_warnings(record=True) as caught4:
                 warnings.simplefilter("always")
